@@ -568,6 +568,47 @@ fn c03_sum(ctx: &mut Ctx) {
     if n == 0 {
         check!(ctx, both_zero(got), "empty sum = {}", got.show());
     }
+    // a non-fused source: "accumulates with exactly these operations" means the fold ends at the
+    // first None and touches nothing after it
+    if n > 0 {
+        let mix = dds.iter().fold(0x9E3779B97F4A7C15u64, |h, d| (h ^ d.hi.to_bits() ^ d.lo.to_bits().rotate_left(17)).wrapping_mul(0x100000001b3));
+        let cut = ((mix >> 20) % (n as u64 + 1)) as usize;
+        let fold_range = |a: usize, b: usize| {
+            let mut acc = TwoFloat::from(0.0);
+            for i in a..b {
+                acc = if kind < 2 { acc + tfs[i] } else { acc + fs[i] };
+            }
+            Dd::of(acc)
+        };
+        use crate::p_forms::non_fused_sums;
+        let r = guard(|| match kind {
+            0 => {
+                let (a, nx, b) = non_fused_sums(&tfs, cut);
+                (Dd::of(a), nx.is_some(), Dd::of(b))
+            }
+            1 => {
+                let (a, nx, b) = non_fused_sums(&tf_refs, cut);
+                (Dd::of(a), nx.is_some(), Dd::of(b))
+            }
+            2 => {
+                let (a, nx, b) = non_fused_sums(&fs, cut);
+                (Dd::of(a), nx.is_some(), Dd::of(b))
+            }
+            _ => {
+                let (a, nx, b) = non_fused_sums(&f_refs, cut);
+                (Dd::of(a), nx.is_some(), Dd::of(b))
+            }
+        });
+        match r {
+            Err(m) => ctx.fail(format!("sum over a non-fused source panicked: {m}")),
+            Ok((first, has_next, rest)) => {
+                let (wf, wr) = (fold_range(0, cut), fold_range((cut + 1).min(n), n));
+                check!(ctx, same_dd(first, wf), "sum over a non-fused source (None after {cut} of {n} items) = {} but the fold of the items before the None is {}", first.show(), wf.show());
+                check!(ctx, has_next == (cut < n), "sum consumed items beyond the first None of a non-fused source (None after {cut} of {n} items)");
+                check!(ctx, same_dd(rest, wr), "the sum of the rest of a non-fused source = {} but the fold of the remaining items is {}", rest.show(), wr.show());
+            }
+        }
+    }
     ctx.set_nontrivial(n >= 2 && got.lo != 0.0);
 }
 
